@@ -64,6 +64,7 @@ func NewAttestationPool(spec *common.Spec) *AttestationPool {
 		datas:              make(map[common.Root]*IndexedAttData),
 		individual:         make(map[Assignment]*AttRef),
 		aggregate:          make(map[common.Root]*MinAggregates),
+		aggPerValidator:    make(map[Assignment]common.Root),
 		maxExtraAggregates: 10, // TODO: worth tuning
 	}
 }
@@ -194,7 +195,11 @@ func (ap *AttestationPool) Search(opts ...AttSearchOption) (out []*phase0.Attest
 		if conf.comm != nil && d.Data.Index != *conf.comm {
 			continue
 		}
-		agg := ap.aggregate[k]
+		agg, ok := ap.aggregate[k]
+		if !ok {
+			// only individual votes are known for this data
+			continue
+		}
 		for _, a := range agg.Aggregates {
 			out = append(out, &phase0.Attestation{AggregationBits: a.Participants, Data: d.Data, Signature: a.Sig})
 		}
